@@ -83,6 +83,9 @@ struct Layout {
     /// permutation seed of the file arguments
     argv_seed: u64,
     hash_seed: u64,
+    /// I/O fault seam (short reads/writes, EINTR), seeded
+    #[serde(default)]
+    io_seed: Option<u64>,
 }
 
 #[derive(Clone, Debug, Serialize, Deserialize, PartialEq)]
@@ -364,7 +367,7 @@ impl Check for C20Check {
         "exploration"
     }
     fn rule(&self) -> String {
-        "scenario = 1..=4 Chronobox hardware models (0..=17 half-wrap markers, 0..=60 edges on seeded channels, a seeded share of them within 0, 2, 4 .. 2^23-2 ticks of a half wrap and written on the other side of the marker, scaler blocks whose payload imitates entries, at most one fault of {dropped marker, duplicated marker adjacent/apart, truncated tail inside entry/scaler block, word corrupted into a non-entry, marker corrupted into another valid marker (counter bits / top bit flipped), no counter-0 marker, counter-0 marker with top bit set (unasserted)}) and 2-3 layouts of the SAME streams: seeded cuts into CBFn banks (0..max bytes, inside entries and blocks), banks grouped into Chronobox events interleaved with main/sequencer/other events (including non-Chronobox events that carry CBF banks, and unknown CBF-like banks), 1..=4 files (.mid/.mid.lz4, LE/BE, 16/32/32a-bit banks), seeded argv order, seeded hash seed. Every layout is one run of the real binary. Oracles: I1 exit status / CSV presence as the statement says; I2 rows = model rows per board in stream order, boards contiguous, channel and edge right; I3 every non-empty chronobox_time equals the model's true time (|dt| < 1 ns; a tick is 100 ns) and is empty exactly where the statement says; I4 identical CSV body across layouts. Non-trivial = at least one run of the binary on a stream with a counter-0 marker or a fault; distinct = distinct event-log hashes (stream bytes, layouts, outcomes).".into()
+        "scenario = 1..=4 Chronobox hardware models (0..=17 half-wrap markers, 0..=60 edges on seeded channels, a seeded share of them within 0, 2, 4 .. 2^23-2 ticks of a half wrap and written on the other side of the marker, scaler blocks whose payload imitates entries, at most one fault of {dropped marker, duplicated marker adjacent/apart, truncated tail inside entry/scaler block, word corrupted into a non-entry, marker corrupted into another valid marker (counter bits / top bit flipped), no counter-0 marker, counter-0 marker with top bit set (unasserted)}) and 2-3 layouts of the SAME streams: seeded cuts into CBFn banks (0..max bytes, inside entries and blocks), banks grouped into Chronobox events interleaved with main/sequencer/other events (including non-Chronobox events that carry CBF banks, and unknown CBF-like banks), 1..=4 files (.mid/.mid.lz4, LE/BE, 16/32/32a-bit banks), seeded argv order, seeded hash seed, and in a third of the layouts the I/O fault seam (short reads/writes and EINTR on every read(2)/write(2)). Every layout is one run of the real binary. Oracles: I1 exit status / CSV presence as the statement says; I2 rows = model rows per board in stream order, boards contiguous, channel and edge right; I3 every non-empty chronobox_time equals the model's true time (|dt| < 1 ns; a tick is 100 ns) and is empty exactly where the statement says; I4 identical CSV body across layouts. Non-trivial = at least one run of the binary on a stream with a counter-0 marker or a fault; distinct = distinct event-log hashes (stream bytes, layouts, outcomes).".into()
     }
     fn assumptions(&self) -> Vec<String> {
         vec![
@@ -377,7 +380,7 @@ impl Check for C20Check {
     fn components(&self) -> Value {
         json!({"real": ["alpha-g-chronobox-timestamps (main.rs from /repo, shadow build)", "alpha_g_analysis lib (sort_run_files, read)", "alpha_g_detector::chronobox", "midasio", "lz4", "csv", "clap", "indicatif"],
                "model": ["Chronobox FIFO hardware (counter, half-wrap markers, scaler blocks, edge/marker race)", "DAQ bank cutter / event builder", "MIDAS logger (LE/BE, 16/32/32a, lz4)", "operator (argv order)"],
-               "simulated": ["OS randomness for hash keys (getrandom via LD_PRELOAD)"],
+               "simulated": ["OS randomness for hash keys (getrandom via LD_PRELOAD)", "read(2)/write(2) short counts and EINTR (LD_PRELOAD, seeded)"],
                "stub": [], "filesystem": "real, private scratch directory under /dev/shm"})
     }
     fn count(&self, tier: Tier) -> u64 {
@@ -481,6 +484,7 @@ impl Check for C20Check {
                 n_files: r.usize(1, 4),
                 argv_seed: r.next_u64(),
                 hash_seed: r.next_u64() >> 1,
+                io_seed: if r.chance(1, 3) { Some(r.next_u64() >> 1) } else { None },
             })
             .collect();
         serde_json::to_value(Scn { run_number: *r.pick(&[1u32, 9000, 11084, 4_000_000_000]), boards, layouts }).unwrap()
@@ -546,13 +550,16 @@ impl Check for C20Check {
             hl.u64(lay.seed).u64(lay.argv_seed).u64(lay.hash_seed).u64(lay.n_files as u64).u64(lay.max_bank as u64);
             stats.schedule(hl.finish());
             stats.executions += 1;
+            if lay.io_seed.is_some() {
+                stats.fault("io_short_reads_writes_and_eintr");
+            }
             let res = run_binary(
                 "alpha-g-chronobox-timestamps",
                 &scratch.dir,
                 &args,
                 &[],
                 &format!("out{li}"),
-                &RunEnv { hash_seed: Some(lay.hash_seed), real_rayon: true, ..Default::default() },
+                &RunEnv { hash_seed: Some(lay.hash_seed), real_rayon: true, io_seed: lay.io_seed, ..Default::default() },
             );
             log.u64(res.success as u64).u64(res.csv.is_some() as u64);
             let narrowed = {
